@@ -43,7 +43,8 @@ Limit(v) == IF v.cliConc # -1 THEN v.cliConc
 FailFast(v) == v.cliFF \/ v.bldFF
 
 Tags == {NoTag, [n |-> -1, d |-> -1], [n |-> 2, d |-> -1], [n |-> -1, d |-> 3], [n |-> 2, d |-> 3],
-         [n |-> 3, d |-> 90], [n |-> -1, d |-> 120]}     \* rendered as 1m30s and 2min
+         [n |-> 3, d |-> 90], [n |-> -1, d |-> 120],     \* rendered as 1m30s and 2min
+         [n |-> 2, d |-> 0]}                             \* an explicit zero delay is a delay: it wins over --retry-after
 
 Base == [ts |-> NoTag, tr |-> NoTag, tf |-> NoTag, hasRule |-> TRUE,
          cliRetry |-> -1, bldRetry |-> -1, cliAfter |-> -1, bldAfter |-> -1,
